@@ -1107,6 +1107,97 @@ def check_from_networkx(case):
     return out
 
 
+def held_view_histories(kind, depth):
+    """Every history of <= depth operations from small start graphs, as
+    (start, [ops]); the alphabet depends on the current size."""
+    starts = [0, 1, 2] if kind == 'simple' else ([(2,), (3,)] if kind == 'directed' else [(1, 2), (2, 2)])
+    out = []
+
+    def moves(n, E):
+        if kind == 'simple':
+            ms = [('grow', 1), ('grow', 2)] if n <= 3 else []
+            ms += [('add', u, v) for u in range(1, n + 1) for v in range(u + 1, n + 1) if (u, v) not in E]
+            ms += [('remove', u, v) for (u, v) in sorted(E)]
+            return ms
+        if kind == 'directed':
+            return [('add', u, v) for u in range(1, n[0] + 1) for v in range(1, n[0] + 1) if (u, v) not in E]
+        return [('add', u, v) for u in range(1, n[0] + 1) for v in range(1, n[1] + 1) if (u, v) not in E]
+
+    def rec(start, n, E, hist):
+        out.append((start, list(hist)))
+        if len(hist) >= depth:
+            return
+        for m in moves(n, E):
+            if m[0] == 'grow':
+                rec(start, n + m[1], E, hist + [m])
+            elif m[0] == 'add':
+                rec(start, n, E | {(m[1], m[2])}, hist + [m])
+            else:
+                rec(start, n, E - {(m[1], m[2])}, hist + [m])
+    for st in starts:
+        rec(st, st, frozenset(), [])
+    return out
+
+
+def check_held_view(case):
+    """A view obtained from edges() at some moment and kept: after every later
+    operation its listing, its length and its membership test must agree with
+    each other and with the edges inserted so far."""
+    from cnfgen import graphs
+    kind, start, hist, at = case['kind'], case['start'], [tuple(m) for m in case['history']], case['at']
+    if kind == 'simple':
+        G = graphs.Graph(start)
+    elif kind == 'directed':
+        G = graphs.DirectedGraph(*start)
+    else:
+        G = graphs.BipartiteGraph(*start)
+    E = set()
+    held = None
+    out = []
+    for i in range(len(hist) + 1):
+        if i == at:
+            held = G.edges()
+        if held is not None:
+            want = sorted(E)
+            try:
+                got = [tuple(e) for e in held]
+                ln = len(held)
+                mem = all(e in held for e in want)
+            except Exception as e:
+                out.append({'key': '%s.edges:held-view:exception:%s' % (CLSNAME[kind], type(e).__name__),
+                            'what': repr(e), 'case': case})
+                break
+            if got != want or ln != len(want) or not mem:
+                out.append({'key': '%s.edges:held-view:mismatch' % CLSNAME[kind],
+                            'what': 'view taken after %d operation(s), read after %d: listing %r, len %d, '
+                                    'all inserted edges are members: %r; inserted edges are %r  [%s]' %
+                                    (at, i, got, ln, mem, want, hist[:i]), 'case': case})
+                break
+        if i < len(hist):
+            m = hist[i]
+            if m[0] == 'grow':
+                G.update_vertex_number(G.number_of_vertices() + m[1])
+            elif m[0] == 'add':
+                G.add_edge(m[1], m[2])
+                E.add((m[1], m[2]))
+            else:
+                G.remove_edge(m[2], m[1])
+                E.discard((m[1], m[2]))
+    return out
+
+
+def run_held(args, R):
+    for (start, hist) in held_view_histories(args['kind'], args['depth'])[args['i']::args['k']]:
+        for at in range(len(hist) + 1):
+            case = {'part': 'held', 'kind': args['kind'], 'start': start, 'history': [list(m) for m in hist],
+                    'at': at}
+            R.extend(check_held_view(case))
+            R.stats['held_view_checks'] += 1
+            R.stats['executions'] += 1
+            R.stats['transitions'] += len(hist)
+            R.case(sample=case if R.evals % 5000 == 0 else None, nontrivial=len(hist) > at)
+
+
 def run_extra(args, R):
     import engine.scope as scope_
     if args['what'] == 'large':
@@ -1140,6 +1231,9 @@ def shards(tier, seed):
     for kind in ('simple', 'directed', 'bipartite'):
         out.append(('large:' + kind, 'run_extra', {'what': 'large', 'kind': kind}))
     out.append(('nx-orders', 'run_extra', {'what': 'nx'}))
+    for kind, depth in (('simple', 4 if tier == 'thorough' else 3), ('directed', 3), ('bipartite', 3)):
+        for i in range(4):
+            out.append(('held:%s:%d' % (kind, i), 'run_held', {'kind': kind, 'depth': depth, 'i': i, 'k': 4}))
     return out
 
 
@@ -1223,6 +1317,8 @@ def replay(case):
         return check_large(case)[0]
     if case.get('part') == 'nx':
         return check_from_networkx(case)
+    if case.get('part') == 'held':
+        return check_held_view(case)
     OBS.clear()
     st0, v = _initial_or_violation(case)
     if v is not None:
